@@ -395,3 +395,447 @@ Proof.
   destruct (i_skip i); try reflexivity; destruct (i_ref i); try reflexivity;
     destruct (i_rerr i); try reflexivity; apply HL.
 Qed.
+
+(* ====================================================================== *)
+(* Statements of props/C10_Property.v                                      *)
+(* ====================================================================== *)
+
+(* the listing, whatever its paging *)
+Definition listing (i : input) : list sigk := List.concat (i_pages i).
+
+(* signature k verifies, is among the first [max], and every signature listed
+   before it was fetched and failed verification *)
+Definition first_good (l : list sigk) (max : Z) (k : nat) : Prop :=
+  (Z.of_nat k < max)%Z /\ nth_error l k = Some G /\ forall j, j < k -> nth_error l j = Some Bd.
+
+(* signature k is the first that is not a plain verification failure *)
+Definition first_stop (l : list sigk) (k : nat) (x : sigk) : Prop :=
+  nth_error l k = Some x /\ x <> Bd /\ forall j, j < k -> nth_error l j = Some Bd.
+
+(* the arguments are there, the limit is positive, the verifier does not skip *)
+Definition past_skip (i : input) : Prop :=
+  i_nilv i = false /\ i_nilr i = false /\ (0 < i_max i)%Z /\
+  (i_skip i = NoSkipper \/ i_skip i = SkipNo).
+
+(* calls made up to and including ListSignatures when the listing is reached *)
+Definition head_of (i : input) : list ev := pre_of i ++ [ER; EL].
+
+(* positions fetched / verified, in call order *)
+Definition fetches (log : list ev) : list nat :=
+  flat_map (fun e => match e with EF k => [k] | _ => [] end) log.
+Definition verifies (log : list ev) : list nat :=
+  flat_map (fun e => match e with EV k => [k] | _ => [] end) log.
+(* calls on the repository *)
+Definition repo_calls (log : list ev) : list ev :=
+  filter (fun e => match e with ES | EV _ => false | _ => true end) log.
+
+Lemma find_stop0_some l k x : find_stop l 0 = Some (k, x) <-> first_stop l k x.
+Proof.
+  unfold first_stop. rewrite find_stop_some, Nat.sub_0_r. split.
+  - intros (_ & H). exact H.
+  - intros H. split; [lia | exact H].
+Qed.
+
+Lemma first_good_stop l max k : first_good l max k -> find_stop l 0 = Some (k, G).
+Proof.
+  intros (_ & Hn & Hb). apply find_stop0_some. split; [exact Hn|]. split; [discriminate | exact Hb].
+Qed.
+
+Lemma first_stop_lt l k x : first_stop l k x -> k < List.length l.
+Proof. intros (Hn & _). apply nth_error_Some. congruence. Qed.
+
+(* ---------- range / projections of the log ---------- *)
+
+Lemma range_snoc k : range 0 (S k) = range 0 k ++ [k].
+Proof. unfold range. rewrite !Nat.sub_0_r. rewrite seq_S. reflexivity. Qed.
+
+Lemma fetches_app a b : fetches (a ++ b) = fetches a ++ fetches b.
+Proof. unfold fetches. apply flat_map_app. Qed.
+
+Lemma verifies_app a b : verifies (a ++ b) = verifies a ++ verifies b.
+Proof. unfold verifies. apply flat_map_app. Qed.
+
+Lemma fetches_pairs a b : fetches (pairs a b) = range a b.
+Proof.
+  unfold pairs. induction (range a b) as [|x l IH]; [reflexivity|].
+  cbn [flat_map app]. change (fetches (EF x :: EV x :: ?t)) with (x :: fetches t). cbn.
+  unfold fetches in *. cbn. rewrite IH. reflexivity.
+Qed.
+
+Lemma verifies_pairs a b : verifies (pairs a b) = range a b.
+Proof.
+  unfold pairs. induction (range a b) as [|x l IH]; [reflexivity|].
+  unfold verifies in *. cbn. rewrite IH. reflexivity.
+Qed.
+
+Lemma fetches_head i : fetches (head_of i) = [] /\ verifies (head_of i) = [].
+Proof. unfold head_of, pre_of. destruct (i_skip i); split; reflexivity. Qed.
+
+Lemma pairs_length a b : List.length (pairs a b) = 2 * (b - a).
+Proof.
+  unfold pairs. rewrite <- (range_length a b).
+  induction (range a b) as [|x l IH]; [reflexivity|]. cbn [flat_map app List.length]. rewrite IH. lia.
+Qed.
+
+(* ---------- which inputs reach the listing ---------- *)
+
+Lemma model_head i : reaches_listing i -> model i = listing_obs i (head_of i).
+Proof. exact (model_reaches i). Qed.
+
+(* every other input ends before ListSignatures, with one of these observations *)
+Lemma model_not_reaching i :
+  reaches_listing i \/
+  (model i = mk_obs ROk DZero OSkip [ES] true /\ i_nilv i = false /\ i_nilr i = false /\
+   (0 < i_max i)%Z /\ i_skip i = SkipYes) \/
+  (exists r log, model i = err_obs r log /\ r <> ROk /\
+     (log = [] \/ log = [ES] \/ log = [ER] \/ log = [ES; ER])).
+Proof.
+  unfold model, reaches_listing.
+  destruct (i_nilv i) eqn:Ev.
+  { right; right. exists RNilVerifier, []. repeat split; [discriminate | auto]. }
+  destruct (i_nilr i) eqn:Er.
+  { right; right. exists RNilRepo, []. repeat split; [discriminate | auto]. }
+  destruct (i_max i <=? 0)%Z eqn:Em.
+  { right; right. exists RBadMax, []. repeat split; [discriminate | auto]. }
+  assert (Hmax : (0 < i_max i)%Z) by (apply Z.leb_gt; exact Em).
+  destruct (i_skip i) eqn:Es.
+  2:{ right; right. exists RSkipErr, [ES]. repeat split; [discriminate | auto]. }
+  2:{ right; left. repeat split; assumption. }
+  all: unfold after_skip; destruct (i_ref i) eqn:Ef.
+  all: try (right; right; eexists _, _; split; [reflexivity|]; split; [discriminate|]; cbn; auto; fail).
+  all: destruct (i_rerr i) eqn:Ee.
+  all: try (right; right; eexists _, _; split; [reflexivity|]; split; [discriminate|]; cbn; auto 6; fail).
+  all: left; repeat split; auto.
+Qed.
+
+(* ---------- success ---------- *)
+
+Lemma listing_obs_ok i head :
+  o_res (listing_obs i head) = ROk ->
+  exists k, first_good (listing i) (i_max i) k /\
+            listing_obs i head = mk_obs ROk DResolved (OSig k) (head ++ pairs 0 (S k)) true.
+Proof.
+  unfold listing_obs, listing.
+  destruct (find_stop (List.concat (i_pages i)) 0) as [[k x]|] eqn:Ef.
+  - apply find_stop0_some in Ef. destruct Ef as (Hn & Hx & Hb).
+    destruct (Z.of_nat k <? i_max i)%Z eqn:Ek; [|cbn; discriminate].
+    apply Z.ltb_lt in Ek.
+    destruct x; cbn; try discriminate. intros _. exists k. split; [|reflexivity].
+    split; [exact Ek|]. split; assumption.
+  - repeat match goal with |- context [if ?c then _ else _] => destruct c end; cbn; discriminate.
+Qed.
+
+Lemma listing_obs_good i head k :
+  first_good (listing i) (i_max i) k ->
+  listing_obs i head = mk_obs ROk DResolved (OSig k) (head ++ pairs 0 (S k)) true.
+Proof.
+  intros H. pose proof (first_good_stop _ _ _ H) as Ef. destruct H as (Hk & _).
+  unfold listing_obs. unfold listing in Ef. rewrite Ef.
+  apply Z.ltb_lt in Hk. rewrite Hk. reflexivity.
+Qed.
+
+(* C10_iff, on inputs that reach the listing *)
+Lemma success_iff i k :
+  reaches_listing i ->
+  (o_res (model i) = ROk /\ o_outs (model i) = OSig k) <-> first_good (listing i) (i_max i) k.
+Proof.
+  intros Hr. rewrite (model_head i Hr). split.
+  - intros (Hok & Ho). destruct (listing_obs_ok i _ Hok) as (k' & Hg & E).
+    rewrite E in Ho. cbn in Ho. inversion Ho; subst. exact Hg.
+  - intros Hg. rewrite (listing_obs_good i _ k Hg). split; reflexivity.
+Qed.
+
+(* what a success returns and which calls it made *)
+Lemma success_returns i :
+  o_res (model i) = ROk ->
+  (i_skip i = SkipYes /\ model i = mk_obs ROk DZero OSkip [ES] true) \/
+  (reaches_listing i /\ exists k, first_good (listing i) (i_max i) k /\
+     model i = mk_obs ROk DResolved (OSig k) (head_of i ++ pairs 0 (S k)) true).
+Proof.
+  intros Hok. destruct (model_not_reaching i) as [Hr | [(E & _ & _ & _ & Hs) | (r & log & E & Hne & _)]].
+  - right. split; [exact Hr|]. rewrite (model_head i Hr) in *.
+    destruct (listing_obs_ok i _ Hok) as (k & Hg & E). exists k. split; assumption.
+  - left. split; assumption.
+  - rewrite E in Hok. cbn in Hok. congruence.
+Qed.
+
+(* the complete characterisation of success *)
+Lemma ok_iff i :
+  o_res (model i) = ROk <->
+  i_nilv i = false /\ i_nilr i = false /\ (0 < i_max i)%Z /\
+  (i_skip i = SkipYes \/
+   (reaches_listing i /\ exists k, first_good (listing i) (i_max i) k)).
+Proof.
+  split.
+  - intros Hok. destruct (success_returns i Hok) as [(Hs & E) | (Hr & k & Hg & E)].
+    + destruct (model_not_reaching i) as [Hr | [(_ & Hv & Hre & Hm & _) | (r & log & E' & Hne & _)]].
+      * destruct Hr as (_ & _ & _ & [H|H] & _); congruence.
+      * repeat split; auto.
+      * rewrite E' in Hok. cbn in Hok. congruence.
+    + pose proof Hr as (Hv & Hre & Hm & _). repeat split; auto. right. split; [exact Hr|]. exists k. exact Hg.
+  - intros (Hv & Hre & Hm & [Hs | (Hr & k & Hg)]).
+    + unfold model. rewrite Hv, Hre, Hs.
+      assert (E : (i_max i <=? 0)%Z = false) by (apply Z.leb_gt; exact Hm). rewrite E. reflexivity.
+    + rewrite (model_head i Hr), (listing_obs_good i _ k Hg). reflexivity.
+Qed.
+
+(* the wording of the property: under the Verifier contract (a failing verifier
+   returns an outcome: no signature of kind NO), success iff one of the first
+   [max] listed signatures verifies and every signature listed before it could
+   be fetched *)
+Lemma success_iff_contract i :
+  reaches_listing i -> ~ In NO (listing i) ->
+  (o_res (model i) = ROk <->
+   exists k, (Z.of_nat k < i_max i)%Z /\ nth_error (listing i) k = Some G /\
+             forall j, j < k -> nth_error (listing i) j <> Some U).
+Proof.
+  intros Hr Hno. split.
+  - intros Hok. rewrite (model_head i Hr) in Hok.
+    destruct (listing_obs_ok i _ Hok) as (k & (Hk & Hn & Hb) & _).
+    exists k. split; [exact Hk|]. split; [exact Hn|]. intros j Hj. rewrite (Hb j Hj). discriminate.
+  - intros (k & Hk & Hn & Hu).
+    rewrite (model_head i Hr).
+    destruct (find_stop (listing i) 0) as [[k0 x]|] eqn:Ef.
+    + apply find_stop0_some in Ef. destruct Ef as (Hn0 & Hx & Hb).
+      assert (Hle : k0 <= k).
+      { destruct (Nat.le_gt_cases k0 k) as [H|H]; [exact H|]. rewrite (Hb k H) in Hn. discriminate. }
+      assert (Hg : x = G).
+      { destruct (Nat.eq_dec k0 k) as [->|Hne]; [congruence|].
+        destruct x; try reflexivity; try congruence.
+        - exfalso. apply (Hu k0); [lia | exact Hn0].
+        - exfalso. apply Hno. eapply nth_error_In. exact Hn0. }
+      subst x. rewrite (listing_obs_good i _ k0); [reflexivity|].
+      split; [lia|]. split; assumption.
+    + exfalso. rewrite find_stop_none in Ef.
+      assert (Hlt : k < List.length (listing i)) by (apply nth_error_Some; congruence).
+      rewrite (Ef k Hlt) in Hn. discriminate.
+Qed.
+
+(* ---------- the calls ---------- *)
+
+(* shape of the log of an input that reaches the listing: m signatures were
+   fetched, in listing order, m <= max, m <= length of the listing; each was
+   verified right after its fetch, except an unfetchable last one *)
+Lemma log_shape i :
+  reaches_listing i ->
+  exists m, (Z.of_nat m <= i_max i)%Z /\ m <= List.length (listing i) /\
+    (o_log (model i) = head_of i ++ pairs 0 m \/
+     exists k, m = S k /\ nth_error (listing i) k = Some U /\ o_res (model i) = RFetch k /\
+               o_log (model i) = head_of i ++ pairs 0 k ++ [EF k]).
+Proof.
+  intros Hr. rewrite (model_head i Hr). pose proof Hr as (_ & _ & Hmax & _).
+  unfold listing_obs. fold (listing i).
+  destruct (find_stop (listing i) 0) as [[k x]|] eqn:Ef.
+  - apply find_stop0_some in Ef. pose proof (first_stop_lt _ _ _ Ef) as Hlen. destruct Ef as (Hn & Hx & Hb).
+    destruct (Z.of_nat k <? i_max i)%Z eqn:Ek.
+    + apply Z.ltb_lt in Ek. exists (S k). split; [lia|]. split; [lia|].
+      destruct x; cbn; auto. right. exists k. auto.
+    + apply Z.ltb_ge in Ek. exists (Z.to_nat (i_max i)). split; [lia|]. split; [lia|]. left. reflexivity.
+  - destruct (i_max i <=? Z.of_nat (List.length (listing i)))%Z eqn:El.
+    + apply Z.leb_le in El. exists (Z.to_nat (i_max i)). split; [lia|]. split; [lia|]. left. reflexivity.
+    + apply Z.leb_gt in El. exists (List.length (listing i)). split; [lia|]. split; [lia|]. left.
+      destruct (i_lerr i); [reflexivity|]. destruct (Nat.eqb (List.length (listing i)) 0); reflexivity.
+Qed.
+
+(* C10_calls, for every input: the fetches are positions 0 .. m-1 in order, at
+   most max of them; the verifications are the same positions, except that an
+   unfetchable last one is not verified *)
+Lemma calls_bounded i :
+  exists m, (Z.of_nat m <= Z.max 0 (i_max i))%Z /\ m <= List.length (listing i) /\
+    fetches (o_log (model i)) = range 0 m /\
+    (verifies (o_log (model i)) = range 0 m \/
+     exists k, m = S k /\ nth_error (listing i) k = Some U /\ o_res (model i) = RFetch k /\
+               verifies (o_log (model i)) = range 0 k).
+Proof.
+  destruct (model_not_reaching i) as [Hr | [(E & _) | (r & log & E & _ & Hl)]].
+  - destruct (log_shape i Hr) as (m & Hm & Hlen & [E | (k & -> & Hn & Hres & E)]);
+      destruct (fetches_head i) as (Hf & Hv).
+    + exists m. split; [lia|]. split; [exact Hlen|]. rewrite E, fetches_app, verifies_app, Hf, Hv.
+      rewrite fetches_pairs, verifies_pairs. auto.
+    + exists (S k). split; [lia|]. split; [exact Hlen|].
+      rewrite E, !fetches_app, !verifies_app, Hf, Hv, fetches_pairs, verifies_pairs, range_snoc.
+      cbn [app]. split; [reflexivity|]. right. exists k. rewrite app_nil_r. auto.
+  - exists 0. rewrite E. cbn. split; [lia|]. split; [lia|]. auto.
+  - exists 0. rewrite E. cbn [err_obs o_log]. split; [lia|]. split; [lia|].
+    destruct Hl as [-> | [-> | [-> | ->]]]; cbn; auto.
+Qed.
+
+(* on success: exactly signatures 0..k were fetched and verified, nothing after *)
+Lemma calls_on_success i k :
+  reaches_listing i -> first_good (listing i) (i_max i) k ->
+  o_log (model i) = head_of i ++ pairs 0 (S k) /\
+  fetches (o_log (model i)) = range 0 (S k) /\ verifies (o_log (model i)) = range 0 (S k) /\
+  (Z.of_nat (List.length (fetches (o_log (model i)))) <= i_max i)%Z.
+Proof.
+  intros Hr Hg. rewrite (model_head i Hr), (listing_obs_good i _ k Hg). cbn [o_log].
+  destruct (fetches_head i) as (Hf & Hv).
+  rewrite fetches_app, verifies_app, Hf, Hv, fetches_pairs, verifies_pairs. cbn [app].
+  repeat split; try reflexivity. rewrite range_0_length. destruct Hg as (Hk & _). lia.
+Qed.
+
+(* ---------- errors ---------- *)
+
+(* an error returns the zero descriptor and no outcome *)
+Lemma error_returns_nothing i :
+  o_res (model i) <> ROk -> o_desc (model i) = DZero /\ o_outs (model i) = ONone.
+Proof.
+  intros Hne. destruct (model_not_reaching i) as [Hr | [(E & _) | (r & log & E & _)]].
+  - rewrite (model_head i Hr) in *. revert Hne. unfold listing_obs.
+    destruct (find_stop (List.concat (i_pages i)) 0) as [[k x]|];
+      repeat match goal with |- context [if ?c then _ else _] => destruct c end;
+      try destruct x; cbn; intros Hne; auto; congruence.
+  - rewrite E in Hne. cbn in Hne. congruence.
+  - rewrite E. cbn. auto.
+Qed.
+
+Lemma err_nil_args i :
+  i_nilv i = true \/ i_nilr i = true ->
+  o_res (model i) <> ROk /\ o_log (model i) = [] /\ o_desc (model i) = DZero /\ o_outs (model i) = ONone.
+Proof.
+  unfold model. intros [H | H]; rewrite H.
+  - cbn. repeat split; discriminate.
+  - destruct (i_nilv i); cbn; repeat split; discriminate.
+Qed.
+
+Lemma err_bad_max i :
+  i_nilv i = false -> i_nilr i = false -> (i_max i <= 0)%Z -> model i = err_obs RBadMax [].
+Proof.
+  intros Hv Hr Hm. unfold model. rewrite Hv, Hr.
+  assert (E : (i_max i <=? 0)%Z = true) by (apply Z.leb_le; exact Hm). rewrite E. reflexivity.
+Qed.
+
+Lemma model_past_skip i : past_skip i -> model i = after_skip i (pre_of i).
+Proof.
+  intros (Hv & Hr & Hm & Hs). unfold model, pre_of. rewrite Hv, Hr.
+  assert (E : (i_max i <=? 0)%Z = false) by (apply Z.leb_gt; exact Hm). rewrite E.
+  destruct Hs as [-> | ->]; reflexivity.
+Qed.
+
+Lemma err_no_ref i : past_skip i -> i_ref i = RNone -> model i = err_obs RNoRef (pre_of i).
+Proof. intros Hp Hf. rewrite (model_past_skip i Hp). unfold after_skip. rewrite Hf. reflexivity. Qed.
+
+Lemma err_bad_ref i : past_skip i -> i_ref i = RInvalid -> model i = err_obs RBadRef (pre_of i).
+Proof. intros Hp Hf. rewrite (model_past_skip i Hp). unfold after_skip. rewrite Hf. reflexivity. Qed.
+
+Lemma err_resolve i :
+  past_skip i -> i_ref i <> RNone -> i_ref i <> RInvalid -> i_rerr i = true ->
+  model i = err_obs RResolveErr (pre_of i ++ [ER]).
+Proof.
+  intros Hp H1 H2 He. rewrite (model_past_skip i Hp). unfold after_skip. rewrite He.
+  destruct (i_ref i); try reflexivity; congruence.
+Qed.
+
+Lemma err_digest_mismatch i :
+  past_skip i -> i_ref i = RDigDiff -> i_rerr i = false ->
+  model i = err_obs RDigestMismatch (pre_of i ++ [ER]).
+Proof.
+  intros Hp Hf He. rewrite (model_past_skip i Hp). unfold after_skip. rewrite Hf, He. reflexivity.
+Qed.
+
+Lemma err_empty_listing i :
+  reaches_listing i -> listing i = [] -> i_lerr i = false ->
+  model i = err_obs RNoSignature (head_of i).
+Proof.
+  intros Hr Hl He. rewrite (model_head i Hr). pose proof Hr as (_ & _ & Hmax & _).
+  unfold listing_obs. fold (listing i). rewrite Hl, He. cbn [find_stop List.length].
+  assert (E : (i_max i <=? Z.of_nat 0)%Z = false) by (apply Z.leb_gt; cbn; lia). rewrite E.
+  cbn [Nat.eqb]. rewrite pairs_nil, app_nil_r. reflexivity.
+Qed.
+
+Lemma err_list_error i :
+  reaches_listing i -> listing i = [] -> i_lerr i = true ->
+  model i = err_obs RListErr (head_of i).
+Proof.
+  intros Hr Hl He. rewrite (model_head i Hr). pose proof Hr as (_ & _ & Hmax & _).
+  unfold listing_obs. fold (listing i). rewrite Hl, He. cbn [find_stop List.length].
+  assert (E : (i_max i <=? Z.of_nat 0)%Z = false) by (apply Z.leb_gt; cbn; lia). rewrite E.
+  cbn [Nat.eqb]. rewrite pairs_nil, app_nil_r. reflexivity.
+Qed.
+
+Lemma listing_obs_stop i head k x :
+  first_stop (listing i) k x -> (Z.of_nat k < i_max i)%Z ->
+  listing_obs i head =
+  match x with
+  | G => mk_obs ROk DResolved (OSig k) (head ++ pairs 0 (S k)) true
+  | U => err_obs (RFetch k) (head ++ pairs 0 k ++ [EF k])
+  | _ => err_obs (RNilOutcome k) (head ++ pairs 0 (S k))
+  end.
+Proof.
+  intros Hs Hk. apply find_stop0_some in Hs. unfold listing_obs. unfold listing in Hs. rewrite Hs.
+  apply Z.ltb_lt in Hk. rewrite Hk. reflexivity.
+Qed.
+
+(* a listed signature that cannot be fetched, reached within the limit *)
+Lemma err_unfetchable i k :
+  reaches_listing i -> first_stop (listing i) k U -> (Z.of_nat k < i_max i)%Z ->
+  model i = err_obs (RFetch k) (head_of i ++ pairs 0 k ++ [EF k]).
+Proof. intros Hr Hs Hk. rewrite (model_head i Hr). exact (listing_obs_stop i _ k U Hs Hk). Qed.
+
+(* a verifier failing without an outcome *)
+Lemma err_nil_outcome i k :
+  reaches_listing i -> first_stop (listing i) k NO -> (Z.of_nat k < i_max i)%Z ->
+  model i = err_obs (RNilOutcome k) (head_of i ++ pairs 0 (S k)).
+Proof. intros Hr Hs Hk. rewrite (model_head i Hr). exact (listing_obs_stop i _ k NO Hs Hk). Qed.
+
+(* the first max listed signatures all fail verification: the limit is exceeded *)
+Lemma err_exceeded i :
+  reaches_listing i ->
+  (forall j, (Z.of_nat j < i_max i)%Z -> nth_error (listing i) j = Some Bd) ->
+  model i = err_obs RExceeded (head_of i ++ pairs 0 (Z.to_nat (i_max i))).
+Proof.
+  intros Hr Hb. rewrite (model_head i Hr). pose proof Hr as (_ & _ & Hmax & _).
+  unfold listing_obs. fold (listing i).
+  destruct (find_stop (listing i) 0) as [[k x]|] eqn:Ef.
+  - apply find_stop0_some in Ef. destruct Ef as (Hn & Hx & _).
+    destruct (Z.of_nat k <? i_max i)%Z eqn:Ek; [|reflexivity].
+    apply Z.ltb_lt in Ek. rewrite (Hb k Ek) in Hn. congruence.
+  - destruct (i_max i <=? Z.of_nat (List.length (listing i)))%Z eqn:El; [reflexivity|].
+    apply Z.leb_gt in El. specialize (Hb (List.length (listing i)) El).
+    assert (nth_error (listing i) (List.length (listing i)) = None) by (apply nth_error_None; lia).
+    congruence.
+Qed.
+
+(* fewer than max signatures, all failing verification *)
+Lemma err_all_failed i :
+  reaches_listing i -> listing i <> [] -> (Z.of_nat (List.length (listing i)) < i_max i)%Z ->
+  (forall j, j < List.length (listing i) -> nth_error (listing i) j = Some Bd) -> i_lerr i = false ->
+  model i = err_obs (RAllFailed (range 0 (List.length (listing i))))
+                    (head_of i ++ pairs 0 (List.length (listing i))).
+Proof.
+  intros Hr Hne Hlt Hb He. rewrite (model_head i Hr).
+  unfold listing_obs. fold (listing i).
+  apply find_stop_none with (p := 0) in Hb. rewrite Hb, He.
+  assert (E : (i_max i <=? Z.of_nat (List.length (listing i)))%Z = false) by (apply Z.leb_gt; exact Hlt).
+  rewrite E. destruct (listing i); [congruence|]. reflexivity.
+Qed.
+
+(* ---------- skip ---------- *)
+
+Lemma skip_nothing i :
+  i_nilv i = false -> i_nilr i = false -> (0 < i_max i)%Z -> i_skip i = SkipYes ->
+  model i = mk_obs ROk DZero OSkip [ES] true.
+Proof.
+  intros Hv Hr Hm Hs. unfold model. rewrite Hv, Hr, Hs.
+  assert (E : (i_max i <=? 0)%Z = false) by (apply Z.leb_gt; exact Hm). rewrite E. reflexivity.
+Qed.
+
+Lemma skip_no_repo_calls i : i_skip i = SkipYes -> repo_calls (o_log (model i)) = [].
+Proof.
+  intros Hs. unfold model. destruct (i_nilv i); [reflexivity|]. destruct (i_nilr i); [reflexivity|].
+  destruct (i_max i <=? 0)%Z; [reflexivity|]. rewrite Hs. reflexivity.
+Qed.
+
+Lemma skip_error i :
+  i_nilv i = false -> i_nilr i = false -> (0 < i_max i)%Z -> i_skip i = SkipErr ->
+  model i = err_obs RSkipErr [ES].
+Proof.
+  intros Hv Hr Hm Hs. unfold model. rewrite Hv, Hr, Hs.
+  assert (E : (i_max i <=? 0)%Z = false) by (apply Z.leb_gt; exact Hm). rewrite E. reflexivity.
+Qed.
+
+(* ---------- C10_flat in the form run(pages) = run(one page) ---------- *)
+
+Lemma model_flat i : model i = model (with_pages i [listing i]).
+Proof.
+  symmetry. apply model_pages. cbn. rewrite app_nil_r. reflexivity.
+Qed.
